@@ -28,6 +28,7 @@ static int32_t write_cb(const uint8_t *buf, uint32_t len, void *ctx, uint32_t *w
   if (s->nsched) { k = s->sched[s->i % s->nsched]; s->i++; }
   if (k == 0) return 4;                         /* EINTR: try again */
   uint32_t n = (uint32_t)k < len ? (uint32_t)k : len;
+  if (s->len > (256u << 20)) return 28;         /* ENOSPC: the archives of the behaviours are a few KiB */
   sink_put(s, buf, n);
   *written = n;
   return 0;
